@@ -430,28 +430,35 @@ Print Assumptions C18_bad_cert_is_error.
 (* ------------------------------------------------------------------------------------------------
    "Address in use" when the address is held by ANOTHER INSTANCE of the router (same listener).  The property
    names address in use as a start-up error; sharing an address between two instances is legitimate only when
-   so_reuseport is configured explicitly ([si_must_refuse]).  The code ([si_refuses]) refuses the second instance
-   for the metrics endpoint and for every listener kind - udp with threads <= 1, tcp, gnet, http, fasthttp, tls,
-   https, quic - unless so_reuseport is configured (quic ignores it and always refuses). *)
+   the listener's sockets carry SO_REUSEPORT ([si_must_refuse]: configured explicitly, or implied by udp.threads >= 2).
+   The code ([si_refuses]) refuses the second instance for the metrics endpoint and for every listener kind - udp
+   with threads <= 1, tcp, gnet, http, fasthttp, tls, https, quic - unless so_reuseport is configured (quic ignores it
+   and always refuses). *)
 Theorem C18_second_instance_refused : forall k rp,
-  In k si_all_kinds -> si_must_refuse k rp = true -> k <> SiKSrv SiSrvUdpN ->
+  In k si_all_kinds -> si_must_refuse k rp = true ->
   si_refuses k rp = true /\
   exists j, si_fault_stmt k (SfHeldByRouter rp) = Some j /\
             snd (si_run [si_prog_of false k] (Some (0, j))) = Some 0.
 Proof.
-  intros k rp Hk Hm Hn. pose proof (si_must_refuse_holds k rp Hm Hn) as R. split; [exact R|].
+  intros k rp Hk Hm. pose proof (si_must_refuse_holds k rp Hm) as R. split; [exact R|].
   unfold si_refuses in R. destruct (si_fault_stmt k (SfHeldByRouter rp)) as [j|] eqn:E; [|discriminate].
   exists j. split; [reflexivity|]. eapply si_fault_reported; eauto.
 Qed.
 Print Assumptions C18_second_instance_refused.
 
-(* the full statement (forall k rp, si_must_refuse k rp = true -> si_refuses k rp = true) is false of the code as
-   it is: a udp listener with udp.threads >= 2 sets SO_REUSEPORT on its sockets, so a second instance on the same
-   address starts although so_reuseport was not configured (known finding K8) *)
-Theorem C18_second_instance_udp_threads_refuted :
-  exists k rp, si_must_refuse k rp = true /\ si_refuses k rp = false.
-Proof. exists (SiKSrv SiSrvUdpN), false. exact si_udp_threads_shares. Qed.
-Print Assumptions C18_second_instance_udp_threads_refuted.
+(* ... and only there: the code refuses a second instance exactly where the sockets carry no SO_REUSEPORT.  A udp
+   listener with udp.threads >= 2 sets SO_REUSEPORT on its sockets (startUdpServer: that is how it opens several
+   sockets on one address), so a further instance shares the address whether or not so_reuseport is configured: the
+   kernel reports no error, and there is no start-up error to report.  (With udp.threads <= 1 the option is set only
+   when configured: the seeded change C18-I, `threads >= 1`, breaks exactly this.) *)
+Theorem C18_second_instance_exact : forall k rp, si_refuses k rp = si_must_refuse k rp.
+Proof. exact si_refuses_iff_must. Qed.
+Print Assumptions C18_second_instance_exact.
+
+Theorem C18_udp_threads_imply_reuseport : forall rp,
+  si_must_refuse (SiKSrv SiSrvUdpN) rp = false /\ si_refuses (SiKSrv SiSrvUdpN) rp = false.
+Proof. exact si_udp_threads_shares. Qed.
+Print Assumptions C18_udp_threads_imply_reuseport.
 
 (* ------------------------------------------------------------------------------------------------
    Closers and their peers: closeImpl calls the closers in order; "returns without waiting for its peers" is a
